@@ -17,6 +17,17 @@ const p10 = "0123456789" // exactly the inline compressed-path limit
 // Universe returns a named raw universe. size: "q" (quick) or "t" (thorough).
 // Universes for byte-string trees never contain a pair k, k||0x00||s (that
 // relation is the known finding D2 and lives only in "d2").
+// aperiodic: n printable bytes without a period (no offset taken modulo a power of two meets the same byte pattern).
+func aperiodic(n int) string {
+	b := make([]byte, n)
+	x := uint32(12345)
+	for i := range b {
+		x = x*1664525 + 1013904223
+		b[i] = 'a' + byte((x>>24)%26)
+	}
+	return string(b)
+}
+
 func Universe(name string, size string, seed int64) []RawKey {
 	thorough := size == "t"
 	switch name {
@@ -137,11 +148,23 @@ func Universe(name string, size string, seed int64) []RawKey {
 		return u
 
 	case "huge":
-		// keys of 255, 256, 257 and 300 bytes below shared paths of 254 and 256 bytes: lengths and depths around one byte's range
-		P := strings.Repeat("abcdefgh", 40)[:300]
+		// keys of 255, 256, 257 and 300 bytes below shared paths of 254 and 256 bytes: lengths and depths around one byte's
+		// range. The bytes have no period (an offset taken modulo 256 must meet a different byte); two keys put an inner node
+		// WITH a compressed path at offset 257.
+		P := aperiodic(300)
 		return []RawKey{
 			rk(P[:254] + "a"), rk(P[:254] + "b"), rk(P[:255] + "x"), rk(P[:256] + "y"), rk(P[:256] + "z"), rk(P[:299] + "q"), rk(P),
+			rk(P[:258] + "QQQ1"), rk(P[:258] + "QQQ2"),
 			rp(P[:254]), rp(P[:255]), rp(P[:256]), rp(P[:100]), rp(P[:254] + "c"), rp(P[:256] + "w"), rp(P + "0"),
+			rp(P[:258] + "QQQ0"), rp(P[:258] + "QQQ9"), rp(P[:258] + "Q"),
+		}
+
+	case "huge2":
+		// every key below ONE path of 258 bytes (258 mod 256 = 2): the root's own compressed path is longer than a byte can count
+		Q := aperiodic(258)
+		return []RawKey{
+			rk(Q + "a1"), rk(Q + "a2"), rk(Q + "b"), rk(Q + "cQQQ1"), rk(Q + "cQQQ2"), rk(Q),
+			rp(Q + "a"), rp(Q + "c"), rp(Q[:100]), rp(Q[:255] + "~"), rp(Q + "cQQQ0"), rp(Q + "d"), rp(""),
 		}
 
 	case "giant":
@@ -248,6 +271,19 @@ func Universe(name string, size string, seed int64) []RawKey {
 			"abcdefgzij1", "Abcdefghijk", "abcdefghij3", "intermationalization",
 			// different strings that collate EQUAL to a stored one (decomposed accent, soft hyphen): absent keys
 			"cafe\u0301", "co\u00adoperate"} {
+			u = append(u, rp(w))
+		}
+		return u
+
+	case "textnfd":
+		// collation: stored keys that are NOT in composed normal form (combining accents, conjoining jamo, the Angstrom and
+		// Ohm signs); their composed spellings are absent keys. What the tree hands back must be the bytes that were inserted.
+		var u []RawKey
+		for _, w := range []string{"e\u0301toile", "A\u030angstrom", "\u1112\u1161\u11ab", "\u212bngel", "\u2126mega", "re\u0301sume\u0301",
+			"plain", "zebra", "a", "o\u0308l", "n\u0303u"} {
+			u = append(u, rk(w))
+		}
+		for _, w := range []string{"\u00e9toile", "\u00c5ngstrom", "\ud55c", "\u00c5ngel", "\u03a9mega", "r\u00e9sum\u00e9", "\u00f6l", "\u00f1u", "b", ""} {
 			u = append(u, rp(w))
 		}
 		return u
